@@ -22,6 +22,16 @@ cp "$VERIF_DIR/known-findings.json" "$TMPV/" 2>/dev/null
 RUNS=240; [ "$TIER" = thorough ] && RUNS=900
 t0=$(date +%s)
 OUT=$(VERIF_DIR="$TMPV" VERIF_RUNS=$RUNS VERIF_WORKERS=1 "$B" check "$ID" quick 2>&1); code=$?
+if [ $code = 0 ] && [ "$ID" = C17 ]; then
+  # second batch: duet episodes only (2-3 threads repeating the same operation on the same key, a
+  # scheduling point at every second to fourth block): state that an operation keeps process-wide is
+  # entered by several threads at the same moment
+  DRUNS=360; [ "$TIER" = thorough ] && DRUNS=1800
+  cp "$TMPV/evidence/$ID.json" "$TMPV/first.json" 2>/dev/null
+  OUT2=$(VERIF_DIR="$TMPV" VERIF_C17_DUET_FROM=0 VERIF_RUNS=$DRUNS VERIF_WORKERS=1 "$B" check "$ID" quick 2>&1); code=$?
+  DUET_LINE=$(echo "$OUT2" | grep -a "^$ID quick:" | tail -1)
+  if [ $code != 0 ]; then OUT="$OUT2"; else cp "$TMPV/evidence/$ID.json" "$TMPV/duet.json" 2>/dev/null; cp "$TMPV/first.json" "$TMPV/evidence/$ID.json" 2>/dev/null; fi
+fi
 t1=$(date +%s)
 if [ $code = 1 ]; then
   mkdir -p "$VERIF_DIR/replays"
@@ -62,8 +72,13 @@ def find(o,key):
     return None
 e["coverage"]["basic_block_tier"]={"what":"thread and rotation episodes re-executed with the simulator and all library crates compiled with SanitizerCoverage trace-pc-guard: the first execution of each basic block inside a library call is a scheduling point of the seeded baton scheduler (probability 1/2..1/64 per block, per episode), so threads interleave between any two basic blocks of the Rust code of all six backends, between FFI calls and at the simulator's seams","simulated_runs":c.get("simulated_runs"),"evaluations":c.get("evaluations"),"scheduling_points_passed":find(a,"sched:ffi-yield-points-passed"),"slices":find(a,"sched:slices"),"instrumented_blocks":find(a,"sched:instrumented-blocks"),"batch_log_hash":c.get("batch_log_hash"),"wall_s":secs,"findings":0}
 e["wall_s"]=e.get("wall_s",0)+secs
+try:
+    d=json.load(open(q.replace("evidence/"+q.split("/")[-1],"duet.json")))["coverage"]
+    e["coverage"]["basic_block_tier"]["duet_batch"]={"what":"duet episodes only (VERIF_C17_DUET_FROM=0): 2-3 threads repeat the same one or two operations on the same key objects, block-level scheduling with probability 1/2..1/4 per block","simulated_runs":d.get("simulated_runs"),"evaluations":d.get("evaluations"),"batch_log_hash":d.get("batch_log_hash")}
+except Exception:
+    pass
 json.dump(e,open(p,"w"),indent=1)
 PY
 rm -rf "$TMPV"
-echo "$ID basic-block tier: clean ($line)"
+echo "$ID basic-block tier: clean ($line; duets: ${DUET_LINE:-none})"
 exit 0
